@@ -1234,7 +1234,8 @@ def csources_t(case):
             for k in range(i["base"], i["base"] + n):
                 v = src_value(k, i["ishape"], case["seed"], *src_opts(i))
                 out[k] = f"tsrc {COQ_DT[v.dtype.name]} {clist([cnat(x) for x in v.shape])} {clist([cZ(int(x)) for x in v.reshape(-1).tolist()])}"
-    return clist([out[k] for k in range(len(out))])
+    # numbers of sources the generator made and dropped again are never referenced: a 0-d placeholder keeps the positions
+    return clist([out.get(k, f"tsrc BD.DI64 [] {clist([cZ(0)])}") for k in range(max(out) + 1)])
 
 
 def cvalcase_t(case, values):
@@ -1614,6 +1615,8 @@ class Gen:
                 self.push({"op": "map", "a": b, "f": "u_aff"}, 2)
                 b = len(self.refs) - 1
             f = rng.choice(["add", "subtract", "multiply", "divide"] if not self.sem else ["add", "subtract", "multiply"])
+            if f == "divide" and not np.all(self.refs[b].data):
+                f = "multiply"          # a divisor with zeros (masks): x/0 and 0/0 are not numbers, and xarray's reductions skip NaN
             return self.push({"op": "binA", "a": cur, "b": b, "f": f}, ts + self.tsz[b] + 1)
         if op == "join":
             if any(isinstance(l, tuple) for c in r.coords.values() for l in c) or not all(r.indexed.values()) or not self.same_payload_layout(r):
